@@ -115,12 +115,79 @@ fn nonce(rng: &mut Rng, pol_len: usize) -> Vec<u8> {
     }
 }
 
+/// Deterministic enumeration of every length boundary: HMAC key vs the 64-byte block, data vs the
+/// Merkle–Damgård padding boundary, P_hash length vs the digest size (0, h-1, h, h+1, 2h-1, 2h, 2h+1, 3h),
+/// every policy with nonces of length 0, 1, policy-1, policy, policy+1, 64, equal / one bit apart.
+fn systematic(out: &mut Vec<String>) {
+    let bytes = |l: usize, seed: u8| -> Vec<u8> { (0..l).map(|i| (i as u8).wrapping_mul(31).wrapping_add(seed)).collect() };
+    for alg in ["sha1", "sha256"] {
+        out.push("reset".to_string());
+        for kl in [0usize, 1, 20, 32, 63, 64, 65, 66, 127, 128, 129] {
+            for dl in [0usize, 1, 54, 55, 56, 57, 63, 64, 65, 119, 120, 121, 128] {
+                out.push(format!("hmac {} x{} x{}", alg, hex(&bytes(kl, 7)), hex(&bytes(dl, 11))));
+            }
+        }
+        let h = if alg == "sha1" { 20 } else { 32 };
+        out.push("reset".to_string());
+        for sl in [0usize, 1, 32, 64, 65] {
+            for dl in [0usize, 1, 32] {
+                for n in [0usize, 1, h - 1, h, h + 1, 2 * h - 1, 2 * h, 2 * h + 1, 3 * h, 3 * h + 1, 80, 96] {
+                    out.push(format!("psha {} x{} x{} {}", alg, hex(&bytes(sl, 3)), hex(&bytes(dl, 5)), n));
+                }
+            }
+        }
+    }
+    for p in POLICIES {
+        let pl = policy(p).unwrap().secure_channel_nonce_length();
+        out.push("reset".to_string());
+        for la in [0usize, 1, pl - 1, pl, pl + 1, 64] {
+            for lb in [0usize, pl, pl + 1] {
+                let a = bytes(la, 1);
+                let b = bytes(lb, 2);
+                out.push(format!("keys {} x{} x{}", p, hex(&a), hex(&b)));
+                out.push(format!("chan {} x{} x{}", p, hex(&a), hex(&b)));
+            }
+        }
+        let a = bytes(pl, 9);
+        let mut b = a.clone();
+        out.push(format!("keys {} x{} x{}", p, hex(&a), hex(&b)));
+        out.push(format!("chan {} x{} x{}", p, hex(&a), hex(&b)));
+        b[pl - 1] ^= 1;
+        out.push(format!("keys {} x{} x{}", p, hex(&a), hex(&b)));
+        out.push(format!("chan {} x{} x{}", p, hex(&a), hex(&b)));
+    }
+    // zero-padding-equivalent secrets (known finding): same key material, in every run
+    for p in POLICIES {
+        out.push("reset".to_string());
+        out.push(format!("keys {} x0102 x0a0b0c", p));
+        out.push(format!("keys {} x010200 x0a0b0c", p));
+        out.push(format!("keys {} x x0a0b0c", p));
+        out.push(format!("keys {} x00 x0a0b0c", p));
+        // … but not for the seed, and not beyond the block size
+        out.push(format!("keys {} x0a0b0c x0102", p));
+        out.push(format!("keys {} x0a0b0c x010200", p));
+        out.push(format!("keys {} x{} x0a0b0c", p, hex(&bytes(64, 1))));
+        out.push(format!("keys {} x{}00 x0a0b0c", p, hex(&bytes(64, 1))));
+        out.push("reset".to_string());
+        let ff = vec![0xffu8; 32];
+        out.push(format!("chan {} x{} x{}", p, hex(&[0u8; 32]), hex(&ff)));
+        out.push(format!("chan {} x x{}", p, hex(&ff)));
+    }
+    for p in ["none", "unknown"] {
+        for kind in ["keys", "chan"] {
+            out.push("reset".to_string());
+            out.push(format!("{} {} x0102 x0304", kind, p));
+        }
+    }
+}
+
 impl Prop for C13 {
     fn id(&self) -> &'static str {
         "C13"
     }
 
     fn gen(&self, rng: &mut Rng, n: usize, tier: Tier, out: &mut Vec<String>) {
+        systematic(out);
         for _ in 0..n {
             out.push("reset".to_string());
             let k = rng.range(1, 5);
@@ -195,7 +262,21 @@ impl R {
         let key = (p.to_string(), k.0.clone(), k.1.clone(), k.2.clone());
         if let Some((s0, d0)) = self.seen.get(&key) {
             if s0 != secret || d0 != seed {
-                return Some(Verdict::fail("distinct", "keys", "two different nonce pairs gave the same key tuple"));
+                // input class: HMAC zero-pads keys up to its 64-byte block, so two secrets that are equal
+                // after stripping trailing zero bytes are the same key (format-inherent, recorded)
+                let strip = |x: &[u8]| -> Vec<u8> {
+                    let mut v = x.to_vec();
+                    while v.last() == Some(&0) {
+                        v.pop();
+                    }
+                    v
+                };
+                let class = if d0 == seed && s0.len() <= 64 && secret.len() <= 64 && strip(s0) == strip(secret) {
+                    "zero-padding-equivalent"
+                } else {
+                    "keys"
+                };
+                return Some(Verdict::fail("distinct", class, "two different nonce pairs gave the same key tuple"));
             }
         }
         self.seen.insert(key, (secret.to_vec(), seed.to_vec()));
